@@ -288,7 +288,7 @@ def run(chk):
         futs.append(pool.submit(run_batch, ("replay", [rp["case"]["spec"]])))
     else:
         sizes = {"leaf": 120, "maps": 300, "nested": 30, "fd": 10, "tcp": 4} if quick else \
-                {"leaf": 1500, "maps": 4000, "nested": 300, "fd": 80, "tcp": 30}
+                {"leaf": 1000, "maps": 2500, "nested": 250, "fd": 60, "tcp": 24}
         nid = 100000
         for mix, n in sizes.items():
             futs.append(pool.submit(run_batch, ("free-" + mix, free_cases(rng, mix, n, nid))))
@@ -298,7 +298,7 @@ def run(chk):
         if not res.ok:
             raise V.Inconclusive("generator TLC run failed: %s" % (res.error or res.violation))
         init, last, out = parse_dot(os.path.join(chk.tmp, "tlc-MCLifecycleGen.cfg", "gen.dot"))
-        cmds, nedges = walks_from_graph(init, last, out, rng, 120 if quick else 1500)
+        cmds, nedges = walks_from_graph(init, last, out, rng, 120 if quick else 1000)
         chk.notes["generator_graph"] = {"states": len(last), "command_edges": nedges, "walks": len(cmds)}
         futs.append(pool.submit(run_batch, ("proto", [{"id": i + 1, "mode": "proto", "mix": "maps", "bound": BOUND,
                                                        "steps": c, "closeerr": i % 3 == 0} for i, c in enumerate(cmds)])))
